@@ -84,5 +84,7 @@ class C17(CacheProp):
                         fails.append("op %d: CostAdded-CostEvicted=%d but used=%d" % (st["n"], (cadd - cev) % M64, used))
         return fails
 
+    stress_kinds = ("getscount",)
+
 
 PROP = C17()
